@@ -1,0 +1,265 @@
+//go:build verif
+
+// Verification hook (property checks C08/C09 of /verif, engine "scmp"). Additive only: builds a
+// configured data plane the way export_test.go does and runs raw packets through the real fast
+// path (scionPacketProcessor.processPkt) and, when that asks for it, the real slow path
+// (slowPathPacketProcessor.processPacket). Compiles away without the `verif` build tag.
+
+package router
+
+import (
+	"fmt"
+	"net"
+	"net/netip"
+	"unsafe"
+
+	"github.com/scionproto/scion/pkg/addr"
+	"github.com/scionproto/scion/pkg/private/ptr"
+	"github.com/scionproto/scion/private/topology"
+	"github.com/scionproto/scion/private/underlay/conn"
+	"github.com/scionproto/scion/router/control"
+)
+
+// VerifScmpBufSize is the size of a packet buffer; VerifScmpMinHeadroom the headroom that
+// initPacketPool reserves in front of every received packet.
+const (
+	VerifScmpBufSize     = bufSize
+	VerifScmpMinHeadroom = minHeadroom
+	VerifScmpE2EAuthLen  = e2eAuthHdrLen
+)
+
+// VerifScmpLink describes one external or sibling interface of the data plane under test.
+type VerifScmpLink struct {
+	IfID     uint16
+	LinkTo   topology.LinkType
+	Neighbor addr.IA
+	Remote   string // underlay address of the far end ("ip:port")
+	Sibling  bool   // interface owned by a sibling router (AddNextHop) instead of this router
+	// BFD enables a BFD session on the link. The session is never run, so its state stays
+	// "not up" and Link.IsUp() reports false: this is how a down interface is obtained.
+	BFD bool
+}
+
+// VerifScmpConfig is the configuration of a data plane under test.
+type VerifScmpConfig struct {
+	LocalIA      addr.IA
+	Key          []byte
+	Auth         bool   // ExperimentalSCMPAuthentication
+	InternalAddr string // "ip:port"; its IP is the router's SCION host address
+	Links        []VerifScmpLink
+	ReuseLocal   bool // what the conn opener answers to UDPCanReuseLocal (false: detached siblings)
+	Svc          map[addr.SVC]netip.AddrPort
+	PortStart    uint16
+	PortEnd      uint16
+}
+
+type verifScmpConn struct{}
+
+func (verifScmpConn) ReadBatch(conn.Messages) (int, error)       { return 0, nil }
+func (verifScmpConn) WriteBatch(conn.Messages, int) (int, error) { return 0, nil }
+func (verifScmpConn) Close() error                                { return nil }
+
+// verifScmpOpener satisfies udpip.ConnOpener structurally (SetConnOpener type-asserts it).
+type verifScmpOpener struct{ reuse bool }
+
+func (o verifScmpOpener) Open(l, r netip.AddrPort, c *conn.Config) (BatchConn, error) {
+	return verifScmpConn{}, nil
+}
+func (o verifScmpOpener) UDPCanReuseLocal() bool { return o.reuse }
+
+// VerifScmpDP is a data plane under test plus one fast-path and one slow-path processor which
+// are reused from packet to packet, as runProcessor/runSlowPathProcessor do.
+type VerifScmpDP struct {
+	dp   *dataPlane
+	fast *scionPacketProcessor
+	slow *slowPathPacketProcessor
+	pkt  Packet
+	buf  [bufSize]byte
+}
+
+// VerifScmpNewDP builds the data plane. It panics on configuration errors.
+func VerifScmpNewDP(cfg VerifScmpConfig) *VerifScmpDP {
+	dp := newDataPlane(RunConfig{NumProcessors: 1, NumSlowPathProcessors: 1, BatchSize: 4}, cfg.Auth)
+	must := func(err error) {
+		if err != nil {
+			panic(fmt.Sprintf("VerifScmpNewDP: %v", err))
+		}
+	}
+	must(dp.SetIA(cfg.LocalIA))
+	must(dp.SetKey(cfg.Key))
+	for _, l := range cfg.Links {
+		must(dp.AddNeighborIA(l.IfID, l.Neighbor))
+	}
+	dp.underlays["udpip"].SetConnOpener(verifScmpOpener{reuse: cfg.ReuseLocal})
+	dp.SetPortRange(cfg.PortStart, cfg.PortEnd)
+	ia := netip.MustParseAddrPort(cfg.InternalAddr)
+	localHost := addr.HostIP(ia.Addr())
+	must(dp.AddInternalInterface(localHost, "udpip", cfg.InternalAddr))
+	for _, l := range cfg.Links {
+		rh := addr.HostIP(netip.MustParseAddrPort(l.Remote).Addr())
+		bfd := control.BFD{Disable: ptr.To(!l.BFD), DetectMult: 3,
+			DesiredMinTxInterval: 1 << 40, RequiredMinRxInterval: 1 << 40}
+		if l.Sibling {
+			li := control.LinkInfo{
+				Provider: "udpip",
+				Local:    control.LinkEnd{IA: cfg.LocalIA, Addr: cfg.InternalAddr},
+				Remote:   control.LinkEnd{IA: cfg.LocalIA, Addr: l.Remote},
+				BFD:      bfd, LinkTo: l.LinkTo, Instance: "sib",
+			}
+			must(dp.AddNextHop(l.IfID, li, localHost, rh))
+		} else {
+			la := fmt.Sprintf("203.0.113.1:%d", 40000+int(l.IfID))
+			li := control.LinkInfo{
+				Provider: "udpip",
+				Local:    control.LinkEnd{IA: cfg.LocalIA, Addr: la},
+				Remote:   control.LinkEnd{IA: l.Neighbor, Addr: l.Remote},
+				BFD:      bfd, LinkTo: l.LinkTo,
+			}
+			lh := addr.HostIP(netip.MustParseAddrPort(la).Addr())
+			must(dp.AddExternalInterface(l.IfID, li, lh, rh))
+		}
+		if s := dp.interfaces[l.IfID].BFDSession(); s != nil {
+			// Never run: make room for every BFD message a test run can deliver (the session's
+			// ReceiveMessage blocks once its queue is full).
+			s.ReceiveQueueSize = 1 << 16
+		}
+	}
+	for svc, a := range cfg.Svc {
+		must(dp.AddSvc(svc, addr.HostIP(a.Addr()), a.Port()))
+	}
+	// What Run() would do next: packet pool (fixes underlayHeadroom), running state.
+	dp.initPacketPool(4)
+	dp.setRunning()
+	v := &VerifScmpDP{dp: dp, fast: newPacketProcessor(dp), slow: newSlowPathProcessor(dp)}
+	v.pkt.init(&v.buf)
+	return v
+}
+
+// Link returns the link object of an interface (0: the internal link).
+func (v *VerifScmpDP) Link(ifID uint16) Link { return v.dp.interfaces[ifID] }
+
+// VerifScmpEmptyPool returns an empty packet pool with room for n packets: the place where a
+// link's receive method puts the packets it drops.
+func VerifScmpEmptyPool(n int) PacketPool { return makePacketPool(n, minHeadroom) }
+
+// VerifScmpPoolDrain empties the pool without touching the packets; returns how many there were.
+func VerifScmpPoolDrain(pp PacketPool) int {
+	n := 0
+	for {
+		select {
+		case <-pp.pool:
+			n++
+		default:
+			return n
+		}
+	}
+}
+
+// UnderlayHeadroom is dataPlane.underlayHeadroom.
+func (v *VerifScmpDP) UnderlayHeadroom() int { return v.dp.underlayHeadroom }
+
+// LocalHost is the router's SCION host address.
+func (v *VerifScmpDP) LocalHost() addr.Host { return v.dp.localHost }
+
+// FreshProcessors replaces the two processors by new ones (no state left from earlier packets).
+func (v *VerifScmpDP) FreshProcessors() {
+	v.fast = newPacketProcessor(v.dp)
+	v.slow = newSlowPathProcessor(v.dp)
+}
+
+// Receive prepares the (single, reused) packet as the underlay receiver does: headroom bytes in
+// front, raw copied into the buffer (cut to the buffer's capacity, as a socket read would), ingress
+// link and — for unconnected links — the underlay source address set by the caller via SetSrc.
+func (v *VerifScmpDP) Receive(raw []byte, headroom int) *Packet {
+	p := &v.pkt
+	p.reset(headroom)
+	n := copy(p.RawPacket, raw)
+	p.RawPacket = p.RawPacket[:n]
+	return p
+}
+
+// VerifScmpSetIngress sets what Link.receive sets.
+func VerifScmpSetIngress(p *Packet, l Link, src *net.UDPAddr) {
+	p.Link = l
+	p.RemoteAddr = nil
+	if src != nil {
+		p.RemoteAddr = unsafe.Pointer(src)
+	}
+}
+
+// VerifScmpRemote returns the packet's underlay remote address (nil if unset).
+func VerifScmpRemote(p *Packet) *net.UDPAddr { return (*net.UDPAddr)(p.RemoteAddr) }
+
+// VerifScmpBufOffset is the offset of RawPacket within the packet buffer.
+func VerifScmpBufOffset(p *Packet) int { return len(p.buffer) - cap(p.RawPacket) }
+
+// VerifScmpResult is what happened to one packet.
+type VerifScmpResult struct {
+	Disp   string // "discard" | "forward" | "slow" | "done" | "other"
+	Egress uint16 // pkt.egress after the fast path
+	// Fast-path request to the slow path (Disp == "slow").
+	SpType  int // >= 0: SCMP type; -1 / -2: ingress / egress router alert
+	SpCode  int
+	SpPtr   int
+	AtSlow  []byte // copy of RawPacket as handed to the slow path
+	SlowErr error  // error of slowPathPacketProcessor.processPacket (packet dropped)
+	// Out is a copy of RawPacket after processing, for packets that are sent on: Disp ==
+	// "forward", or Disp == "slow" with SlowErr == nil.
+	Out []byte
+	// OutOff is the offset of Out within the packet buffer and OutEnd the offset of its end.
+	OutOff int
+	OutEnd int
+	// OutLink is the link the packet is sent on (nil: runProcessor drops it).
+	OutLink Link
+	// Remote is the underlay destination recorded in the packet, if any.
+	Remote *net.UDPAddr
+	// Headroom is the headroom the packet had when the slow path started.
+	Headroom int
+}
+
+func verifScmpDispName(d disposition) string {
+	switch d {
+	case pDiscard:
+		return "discard"
+	case pForward:
+		return "forward"
+	case pSlowPath:
+		return "slow"
+	case pDone:
+		return "done"
+	}
+	return "other"
+}
+
+// Process runs the packet (prepared by Receive + VerifScmpSetIngress) through processPkt and, if
+// requested, the slow path — the bodies of runProcessor and runSlowPathProcessor without queues.
+// A panic in the real code propagates to the caller.
+func (v *VerifScmpDP) Process(p *Packet) VerifScmpResult {
+	var r VerifScmpResult
+	d := v.fast.processPkt(p)
+	r.Disp = verifScmpDispName(d)
+	r.Egress = p.egress
+	switch d {
+	case pForward:
+		r.OutLink = v.dp.interfaces[p.egress]
+		r.Out = append([]byte(nil), p.RawPacket...)
+		r.OutOff = VerifScmpBufOffset(p)
+		r.OutEnd = r.OutOff + len(p.RawPacket)
+		r.Remote = VerifScmpRemote(p)
+	case pSlowPath:
+		r.SpType = int(p.slowPathRequest.spType)
+		r.SpCode = int(p.slowPathRequest.code)
+		r.SpPtr = int(p.slowPathRequest.pointer)
+		r.AtSlow = append([]byte(nil), p.RawPacket...)
+		r.Headroom = VerifScmpBufOffset(p)
+		r.SlowErr = v.slow.processPacket(p)
+		if r.SlowErr == nil {
+			r.OutLink = p.Link
+			r.Out = append([]byte(nil), p.RawPacket...)
+			r.OutOff = VerifScmpBufOffset(p)
+			r.OutEnd = r.OutOff + len(p.RawPacket)
+			r.Remote = VerifScmpRemote(p)
+		}
+	}
+	return r
+}
